@@ -13,6 +13,11 @@ Definition opt_leb (a b : option Z) : bool := match a, b with Some x, Some y => 
 Definition opt_ltb (a b : option Z) : bool := match a, b with Some x, Some y => Z.ltb x y | _, _ => false end.
 Definition opt_geb (a b : option Z) : bool := match a, b with Some x, Some y => Z.geb x y | _, _ => false end.
 Definition opt_gtb (a b : option Z) : bool := match a, b with Some x, Some y => Z.gtb x y | _, _ => false end.
+(* Python truthiness / comparisons of an optional string (None and "" are falsy) and of a list *)
+Definition opt_truthy (o : option string) : bool := match o with Some s => negb (String.eqb s "") | None => false end.
+Definition opt_eqb (o : option string) (s : string) : bool := match o with Some x => String.eqb x s | None => false end.
+Definition opt_in (o : option string) (l : list string) : bool := match o with Some x => existsb (String.eqb x) l | None => false end.
+Definition list_truthy {A} (l : list A) : bool := match l with [] => false | _ => true end.
 Lemma assoc_get_in {A} (l : list (string * A)) k v : assoc_get l k = Some v -> In (k, v) l.
 Proof.
   induction l as [|[k' v'] r IH]; cbn; [discriminate|].
